@@ -56,3 +56,132 @@ def samples_for(kind, n, k, tier):
     want = expected_outcomes(kind, n, k)
     per = 2000 if tier == "quick" else 20000
     return max(20000, want * per)
+
+
+# ---------------------------------------------------------------------------------------------------------------------
+# goodness of fit of the continuous distributions (C16): harness `statd`, real generators, fine bins incl. far tails
+import math, struct
+from statistics import NormalDist
+
+
+def f2b(x):
+    return struct.unpack("<Q", struct.pack("<d", x))[0]
+
+
+def b2f(b):
+    return struct.unpack("<d", struct.pack("<Q", b))[0]
+
+
+def cdf(dist, a, b):
+    """(lower-tail, upper-tail) probability functions of the target law - the specification the property names"""
+    Phi = lambda z: 0.5 * math.erfc(-z / math.sqrt(2))
+    Phc = lambda z: 0.5 * math.erfc(z / math.sqrt(2))
+    if dist == "norm":
+        return Phi, Phc
+    if dist == "exp":
+        return (lambda x: -math.expm1(-x) if x > 0 else 0.0), (lambda x: math.exp(-x) if x > 0 else 1.0)
+    if dist == "expl":
+        return (lambda x: -math.expm1(-a * x) if x > 0 else 0.0), (lambda x: math.exp(-a * x) if x > 0 else 1.0)
+    if dist == "normal":
+        return (lambda x: Phi((x - a) / b)), (lambda x: Phc((x - a) / b))
+    if dist == "lognormal":
+        return (lambda x: Phi((math.log(x) - a) / b) if x > 0 else 0.0), (lambda x: Phc((math.log(x) - a) / b) if x > 0 else 1.0)
+    raise ValueError(dist)
+
+
+def std_edges(kind, samples, bulk=64, floor=2500):
+    """edges in the standard variable (z for the normal family, x for the exponential family): `bulk` equal-probability bins, then
+    tail bins of halving probability as long as the expected count stays >= floor"""
+    if kind == "exp":
+        e = [-math.log1p(-i / bulk) for i in range(1, bulk)]
+        p = 1.0 / bulk
+        while p / 2 * samples >= floor:
+            p /= 2
+            e.append(-math.log(p))
+        return e
+    nd = NormalDist()
+    e = [nd.inv_cdf(i / bulk) for i in range(1, bulk)]
+    p = 1.0 / bulk
+    tails = []
+    while p / 2 * samples >= floor:
+        p /= 2
+        tails.append(-nd.inv_cdf(p))
+    return sorted([-t for t in tails] + e + tails)
+
+
+def statd_request(dist, w, a, b, samples, seed, gen):
+    kind = "exp" if dist in ("exp", "expl") else "norm"
+    z = std_edges(kind, samples)
+    if dist == "expl":
+        e = [x / a for x in z]
+    elif dist == "normal":
+        e = [a + b * x for x in z]
+    elif dist == "lognormal":
+        e = [math.exp(a + b * x) for x in z]
+    else:
+        e = z
+    if w == 32:
+        # f32 samples are binned after exact widening; edges that are not f32 values are fine (the law is continuous)
+        pass
+    e = sorted(set(e))
+    return "statd dist=%s w=%d a=%d b=%d samples=%d seed=%d gen=%s edges=%s" % (dist, w, f2b(a), f2b(b), samples, seed, gen, ",".join(str(f2b(x)) for x in e))
+
+
+def judge_d(req, out):
+    from .oracles import kv
+    d = kv(req)
+    dist, a, b = d["dist"], b2f(int(d["a"])), b2f(int(d["b"]))
+    edges = [b2f(int(x)) for x in d["edges"].split(",")]
+    counts = [int(x) for x in out.split(",")]
+    nan = counts.pop()
+    total = sum(counts) + nan
+    if nan:
+        return "%d of %d samples are NaN" % (nan, total)
+    lo, up = cdf(dist, a, b)
+    # probabilities of the bins; the lower half through the lower tail function, the upper half through the upper tail (accuracy in both tails)
+    probs = []
+    for i in range(len(edges) + 1):
+        left = edges[i - 1] if i > 0 else None
+        right = edges[i] if i < len(edges) else None
+        if left is None:
+            p = lo(right)
+        elif right is None:
+            p = up(left)
+        elif lo(right) <= 0.5:
+            p = lo(right) - lo(left)
+        else:
+            p = up(left) - up(right)
+        probs.append(p)
+    cells = [(c, total * p, i) for i, (c, p) in enumerate(zip(counts, probs)) if total * p >= 1000]
+    rest_c = sum(c for c, p in zip(counts, probs) if total * p < 1000)
+    rest_e = sum(total * p for p in probs if total * p < 1000)
+    chi = sum((c - e) ** 2 / e for c, e, _ in cells) + ((rest_c - rest_e) ** 2 / rest_e if rest_e >= 1000 else 0)
+    df = len(cells) - 1 + (1 if rest_e >= 1000 else 0)
+    if chi > bound(df):
+        c, e, i = max(cells, key=lambda t: (t[0] - t[1]) ** 2 / t[1])
+        left = edges[i - 1] if i > 0 else float("-inf")
+        right = edges[i] if i < len(edges) else float("inf")
+        return ("the histogram of %d samples is incompatible with the target law: chi2 = %.1f > %.1f on %d cells (error probability <= 1e-12); worst cell [%.6g, %.6g): %d samples, %.1f expected"
+                % (total, chi, bound(df), df + 1, left, right, c, e))
+    return None
+
+
+def run_statd(binary, specs, what, build="dev"):
+    """specs: (dist, w, a, b, samples, seed, gen)"""
+    reqs = [statd_request(*s) for s in specs]
+    yield from judge_statd_lines(binary, reqs, what, build)
+
+
+def judge_statd_lines(binary, reqs, what, build="dev"):
+    rc, res, err = C.run_lines(binary, ["run"], reqs, timeout=7200)
+    total = 0
+    for req, out in zip(reqs, res):
+        n = int(req.split("samples=")[1].split()[0])
+        total += n
+        if out in ("panic", "bad-request") or "," not in out:
+            yield {"kind": "oracle", "build": build, "request": req, "impl": out, "model": "", "oracle": "statistics request failed: " + out}
+            continue
+        msg = judge_d(req, out)
+        if msg:
+            yield {"kind": "oracle", "build": build, "request": req, "impl": out[:800], "model": "", "oracle": msg}
+    yield {"kind": "count", "what": what, "n": total, "distinct": len(reqs)}
